@@ -28,7 +28,12 @@ func lookupFlow[T any](urlTree *URLTree[T], url string) lookupFlowNodeResult[T] 
 	var part urlPart
 	for _, part = range splitURL {
 		log.Trace().Msgf("lookupFlowNodeResult::Looking up part %v", part)
-		if currentNode.WildcardChild != nil && currentNode.WildcardChild.hasValue() {
+		// A wildcard written as a path segment after the host stands for path segments only:
+		// it is not collected while further host labels are consumed (h.com/* vs h.com.evil.net/x)
+		pathWildcardFacingHostLabel := part.IsPartOfHost && currentNode.IsPartOfHost &&
+			currentNode.WildcardChild != nil && !currentNode.WildcardChild.IsPartOfHost
+		if currentNode.WildcardChild != nil && currentNode.WildcardChild.hasValue() &&
+			!pathWildcardFacingHostLabel {
 			flows = append(flows, *currentNode.WildcardChild.Value)
 		}
 
